@@ -509,3 +509,80 @@ func runC10RunScenario(rec *Recorder, r *rand.Rand) {
 	close(done)
 	h.Final()
 }
+
+// TestDriveC05Run: third-party writes to pwm / pwm_enable at virtual instants between two ticks of
+// the real controller.Run (stored characterisation, identity map, regulation from t = 3.4 s on).
+func TestDriveC05Run(t *testing.T) {
+	out := os.Getenv("VERIF_OUT")
+	if out == "" {
+		t.Skip("VERIF_OUT not set")
+	}
+	seed := int64(envInt("VERIF_SEED", 1))
+	n := envInt("VERIF_N", 4)
+	rec, err := NewRecorder(out)
+	must(err)
+	defer rec.Close()
+	r := rand.New(rand.NewSource(seed))
+	for i := 0; i < n; i++ {
+		sseed := r.Int63()
+		synctest.Test(t, func(t *testing.T) {
+			r := rand.New(rand.NewSource(sseed))
+			dir := scratchDir("verif.c05r.")
+			defer os.RemoveAll(dir)
+			rf := RunFan{ID: "f1", CurveErrAt: -1, Rest: [3]string{"ok", "ok", "ok"}, Pwm0: r.Intn(256), Mode0: 2, Quant: 1, Theta: 0}
+			mn, mx := randLimits(r)
+			rf.Spec = FanSpec{Kind: []string{"hwmon", "hwmon", "file"}[r.Intn(3)], HasRpm: r.Intn(2) == 0, NeverStop: r.Intn(2) == 0, N: 10,
+				Alg: []AlgSpec{{T: "direct"}, {T: "rate", M: 10}, DefaultPid(200)}[r.Intn(3)]}
+			rf.Spec.HasMode = rf.Spec.Kind == "hwmon"
+			if rf.Spec.Kind == "hwmon" {
+				rf.Spec.CfgMin, rf.Spec.CfgMax = ip(mn), ip(mx)
+			}
+			m := map[int]int{}
+			for v := 0; v <= 255; v++ {
+				m[v] = v
+			}
+			rf.Spec.CfgMap = m
+			cfg := RunCfg{Parallel: true, Dir: dir, Fans: []RunFan{rf}}
+			vals := []int{r.Intn(256), r.Intn(256), r.Intn(256)}
+			cfg.CurveValue = func(n int) int { return vals[(n/7)%3] }
+			{ // store the characterisation first
+				null, _ := NewRecorder(os.DevNull)
+				h0 := NewRunHarness(null, cfg)
+				ctx0, cancel0 := context.WithCancel(context.Background())
+				h0.OnEvent = func(n int, fanId, event string) {
+					if event == "LoopStarted" {
+						cancel0()
+					}
+				}
+				h0.Start(ctx0, nil)
+				h0.Wait()
+				h0.Close(false)
+				cancel0()
+				null.Close()
+			}
+			rec.NextTrace()
+			h := NewRunHarness(rec, cfg)
+			defer h.Close(false)
+			ctx, cancel := context.WithCancel(context.Background())
+			defer cancel()
+			h.Start(ctx, Ev{"scenario": Ev{"c05run": true}})
+			// the loop ticks at 3.6 s, 3.8 s, ...: interfere at x.7 / x.9 s, strictly between two ticks
+			time.Sleep(3700 * time.Millisecond)
+			for k := 0; k < 40; k++ {
+				if r.Intn(3) > 0 {
+					if rf.Spec.HasMode && r.Intn(2) == 0 {
+						h.Poke("f1", "mode", []int{0, 2, 3}[r.Intn(3)])
+					}
+					if r.Intn(3) > 0 {
+						h.Poke("f1", "pwm", r.Intn(256))
+					}
+				}
+				time.Sleep(time.Duration(200*(1+r.Intn(3))) * time.Millisecond)
+			}
+			rec.Emit(Ev{"ev": "Cancel", "why": "done"})
+			cancel()
+			h.Wait()
+			h.Final()
+		})
+	}
+}
